@@ -507,6 +507,12 @@ func visitInstr(fr *frame, instr ssa.Instruction) continuation {
 			}
 			checkPoison(x)
 			a := (*x).(array)
+			if _, symIdx := fr.get(instr.Index).(sym); symIdx && onlyLoaded(instr) && len(a) <= 256 {
+				// &a[i] with a symbolic i that is only ever dereferenced for reading
+				// (a table look-up): no fork, the load becomes an ite over the cells
+				fr.env[instr] = lazyCell{a: a, idx: fr.get(instr.Index)}
+				break
+			}
 			idx := i.index(fr.get(instr.Index), len(a))
 			fr.env[instr] = &a[idx]
 		default:
@@ -605,11 +611,36 @@ func (i *interpreter) concretize(v value, what string) int64 {
 
 // index checks 0 <= idx < n (raising the Go run-time panic otherwise) and
 // returns the concrete index.
+// lazyCell is &a[idx] for a symbolic idx whose only uses are loads.
+type lazyCell struct {
+	a   array
+	idx value
+}
+
+// onlyLoaded reports whether every use of the address is a plain load.
+func onlyLoaded(instr *ssa.IndexAddr) bool {
+	refs := instr.Referrers()
+	if refs == nil || len(*refs) == 0 {
+		return false
+	}
+	for _, r := range *refs {
+		u, ok := r.(*ssa.UnOp)
+		if !ok || u.Op != token.MUL {
+			return false
+		}
+	}
+	return true
+}
+
 func (i *interpreter) index(idx value, n int) int64 {
 	if s, ok := idx.(sym); ok {
 		// decide the bounds check first (one fork), then concretise
 		var inb *Term
 		nn := mkConst(s.e.w, uint64(n))
+		if s.e.w < 63 && !kindSigned(s.k) && uint64(n) >= uint64(1)<<uint(s.e.w) {
+			// every value of the index type is in range (e.g. a byte indexing a [256]T)
+			return i.concretize(idx, "index")
+		}
 		if kindSigned(s.k) {
 			inb = mkAnd(mkBin(OpSle, mkConst(s.e.w, 0), s.e), mkBin(OpSlt, s.e, nn))
 		} else {
@@ -659,8 +690,13 @@ func (i *interpreter) indexRead(a array, idx value) value {
 	} else {
 		inb = mkBin(OpUlt, s.e, nn)
 	}
-	if !i.w.decide(inb) {
-		panic(runtimePanic{fmt.Sprintf("index out of range [symbolic] with length %d", len(a))})
+	if s.e.w < 63 && !kindSigned(s.k) && uint64(len(a)) >= uint64(1)<<uint(s.e.w) {
+		inb = tTrue // every value of the index type is in range
+	}
+	if !inb.isConst() || inb.k == 0 {
+		if !i.w.decide(inb) {
+			panic(runtimePanic{fmt.Sprintf("index out of range [symbolic] with length %d", len(a))})
+		}
 	}
 	_, r := termOf(a[len(a)-1])
 	for j := len(a) - 2; j >= 0; j-- {
